@@ -233,7 +233,7 @@ func runC02(c *core.Ctx) {
 		}
 		for _, eng := range host.AllEngines {
 			h := host.New()
-			o := h.RunScript(eng, p.Source, nil, nil)
+			o := h.RunScript(eng, p.Source, nil, guard())
 			c.Eval(1)
 			if o.Err != nil || o.Escaped != nil {
 				c.Inc("script_not_successful")
@@ -275,7 +275,7 @@ func runC02(c *core.Ctx) {
 			}
 			preLedger, preUUID := h.Ledger.Clone(), h.UUID
 			h.ResetTrace()
-			o := h.RunTx(eng, tx.Source, nil, signersFor(tx.Source), nil)
+			o := h.RunTx(eng, tx.Source, nil, signersFor(tx.Source), guard())
 			c.Eval(1)
 			post, err := audit.Census(h.Ledger)
 			if err != nil {
